@@ -52,13 +52,15 @@ fn pair(i: usize, acct: &'static str) -> (Option<&'static str>, Option<&'static 
         7 => (Some("0.25"), Some("X")),
         8 => (Some("0.25"), Some("")),
         9 => (Some("0"), Some(acct)),
-        _ => (Some("abc"), Some("X")),
+        10 => (Some("abc"), Some("X")),
+        11 => (Some("0.25 "), Some(acct)),
+        _ => (Some(" 0.25"), Some(acct)),
     }
 }
 fn attrs(i: usize) -> Vec<&'static str> {
     [vec![], vec!["kyc"]][i].clone()
 }
-const DIMS: [usize; 10] = [2, 2, 2, 3, 6, 4, 11, 11, 2, 2];
+const DIMS: [usize; 10] = [2, 2, 2, 3, 6, 4, 13, 13, 2, 2];
 
 impl Shape {
     fn baseline(p: u128, inc: u128) -> Shape {
@@ -136,7 +138,7 @@ impl Shape {
                 (None, None) => {}
                 (Some(r), Some(a)) => {
                     if !(r.is_empty() && a.is_empty()) {
-                        if parse_dec(r).is_none() {
+                        if parse_dec(r).is_none() && dec_is_clear(r) {
                             f.push(if tag == "ask" { "ask-rate-unparsable" } else { "bid-rate-unparsable" });
                         }
                         if !valid_addr(a) {
@@ -148,6 +150,14 @@ impl Shape {
             }
         }
         f
+    }
+    /// a fee rate whose parse is a matter of taste (e.g. padded with blanks): no accept/refuse verdict,
+    /// but if the configuration is accepted it must be usable
+    pub fn undecided(&self) -> bool {
+        [(self.ask_pair, "askfee"), (self.bid_pair, "bidfee")].iter().any(|(p, a)| match pair(*p, a) {
+            (Some(r), Some(ac)) => !(r.is_empty() && ac.is_empty()) && parse_dec(r).is_none() && !dec_is_clear(r),
+            _ => false,
+        })
     }
     fn expected_info(&self) -> Value {
         let fee = |p: usize, acct: &'static str| -> Value {
@@ -213,6 +223,7 @@ pub struct SweepOut {
     pub refused: u64,
     pub aborted: u64,
     pub distinct_shapes: u64,
+    pub usable_checked: u64,
     pub viols: BTreeMap<String, (u64, Value, String)>,
     pub accepted_pairs: Vec<(u128, u128)>,
     pub samples: Vec<Value>,
@@ -233,6 +244,7 @@ fn judge(sh: &Shape, ident: &(String, String), out: &mut SweepOut) {
     let o = do_instantiate(&Store::default(), &chain, &msg);
     out.calls += 1;
     let bad = sh.incoherent();
+    let undecided = bad.is_empty() && sh.undecided();
     let mut viol = |sig: String, detail: String, out: &mut SweepOut| {
         out.viols.entry(sig).or_insert((0, shape_value(sh), detail)).0 += 1;
     };
@@ -281,10 +293,15 @@ fn judge(sh: &Shape, ident: &(String, String), out: &mut SweepOut) {
             if !out.accepted_pairs.contains(&(sh.precision, sh.increment)) {
                 out.accepted_pairs.push((sh.precision, sh.increment));
             }
+            // an accepted configuration is usable: a funded order at price 1 can be placed, matched
+            // with the configured fees, and returned
+            usable(sh, &a.store, out);
         }
         Outcome::Refused(e) => {
             out.refused += 1;
-            if bad.is_empty() {
+            if undecided {
+                *out.by_reason.entry("undecided-rate-spelling".into()).or_insert(0) += 1;
+            } else if bad.is_empty() {
                 viol(format!("C13/coherent-configuration-refused/{}", e.split(':').next().unwrap_or("").trim().replace(' ', "-")), format!("{e}: {js}"), out);
             } else {
                 *out.by_reason.entry(bad[0].to_string()).or_insert(0) += 1;
@@ -292,7 +309,9 @@ fn judge(sh: &Shape, ident: &(String, String), out: &mut SweepOut) {
         }
         Outcome::Aborted => {
             out.aborted += 1;
-            if bad.is_empty() {
+            if undecided {
+                *out.by_reason.entry("undecided-rate-spelling".into()).or_insert(0) += 1;
+            } else if bad.is_empty() {
                 viol("C13/coherent-configuration-refused/panic".into(), js.clone(), out);
             } else {
                 *out.by_reason.entry(bad[0].to_string()).or_insert(0) += 1;
@@ -302,6 +321,64 @@ fn judge(sh: &Shape, ident: &(String, String), out: &mut SweepOut) {
     if out.samples.len() < 4 && (out.calls % 977 == 1) {
         out.samples.push(json!({"instantiate": v, "outcome": o.short(), "reference": if bad.is_empty() { json!("coherent") } else { json!(bad) }}));
     }
+}
+
+fn usable(sh: &Shape, store: &Store, out: &mut SweepOut) {
+    use crate::chain::step;
+    use crate::scenario::{Act, Req, ID_A};
+    use std::sync::Arc;
+    let mut chain = Chain::default();
+    let mut at = BTreeMap::new();
+    at.insert("buyer1".to_string(), vec!["kyc".to_string()]);
+    at.insert("seller1".to_string(), vec!["kyc".to_string()]);
+    chain.attrs = Arc::new(at);
+    let inc = sh.increment;
+    let rate = |p: usize, acct: &'static str| -> Option<Rat> {
+        match pair(p, acct) {
+            (Some(r), Some(a)) if !(r.is_empty() && a.is_empty()) => parse_dec(r.trim()),
+            _ => Rat::new(0, 1),
+        }
+    };
+    let (bid_rate, ask_rate) = match (rate(sh.bid_pair, "bidfee"), rate(sh.ask_pair, "askfee")) {
+        (Some(b), Some(a)) => (b, a),
+        _ => return,
+    };
+    let total = inc; // price 1
+    let fee = match Rat::int(total).and_then(|t| bid_rate.mul(t)).and_then(|x| x.round_half_away()) {
+        Some(f) => f,
+        None => return,
+    };
+    let ask_fee = match Rat::int(total).and_then(|t| ask_rate.mul(t)).and_then(|x| x.round_half_away()) {
+        Some(f) => f,
+        None => return,
+    };
+    if ask_fee > total || total.checked_add(fee).is_none() {
+        return;
+    }
+    let exec = executors(sh.executors)[0];
+    let steps = vec![
+        Act::new("seller1", vec![(inc, "base")], Req::CreateAsk { id: ID_A.into(), base: "base".into(), quote: "q1".into(), price: "1".into(), size: inc }),
+        Act::new("buyer1", vec![(total + fee, "q1")], Req::CreateBid { id: ID_A.into(), base: "base".into(), fee: if fee > 0 { Some(("q1".into(), fee)) } else { None }, price: "1".into(), quote: "q1".into(), quote_size: total, size: inc }),
+        Act::new(exec, vec![], Req::Match { ask_id: ID_A.into(), bid_id: ID_A.into(), price: "1".into(), size: inc }),
+    ];
+    let mut s = store.clone();
+    for (i, act) in steps.iter().enumerate() {
+        out.calls += 1;
+        match step(&s, &chain, &act.sender, &act.funds, &act.msg) {
+            Outcome::Accepted(a) => {
+                if !a.deliverable() {
+                    out.viols.entry(format!("C13/accepted-configuration-unusable/{}-undeliverable", act.req.kind())).or_insert((0, shape_value(sh), format!("{:?}", a.flows))).0 += 1;
+                    return;
+                }
+                s = a.store.clone();
+            }
+            o => {
+                out.viols.entry(format!("C13/accepted-configuration-unusable/{}", act.req.kind())).or_insert((0, shape_value(sh), format!("step {i}: {} -> {}", act.describe(), o.short()))).0 += 1;
+                return;
+            }
+        }
+    }
+    out.usable_checked += 1;
 }
 
 fn shapes_for(p: u128, inc: u128, k: usize, full: bool) -> Vec<Shape> {
@@ -404,6 +481,7 @@ pub fn sweep(tier: Tier) -> SweepOut {
                 t.refused += local.refused;
                 t.aborted += local.aborted;
                 t.distinct_shapes += local.distinct_shapes;
+                t.usable_checked += local.usable_checked;
                 for (k, v) in local.viols {
                     let e = t.viols.entry(k).or_insert((0, v.1.clone(), v.2.clone()));
                     e.0 += v.0;
